@@ -137,6 +137,66 @@ def file_task(task):
     return n, out, len(sites)
 
 
+def sample_task(task):
+    """Worker: one sample input of norminette's own tests, at text level: every respellable one-character punctuator
+    token respelled alone (both spellings) and all together, a splice (both forms) before every token; oracle: the
+    same (type, value) sequence.  A site is skipped when a neighbouring raw character could fuse with the new spelling."""
+    fname, text, step = task
+    t, errs, exc = impl.lex(text, fname)
+    if t is None:
+        return 0, [], 0
+    al = lexref.align(text, t, set())
+    if not al["ok"]:
+        return 0, [], 0
+    base = [(x.type, x.value) for x in t]
+    spans = al["spans"]
+    out = []
+    n = 0
+    sites = []
+    for i, x in enumerate(t):
+        a, b = spans[i]
+        if x.value is None and b - a == 1 and text[a] in ALT:
+            if text[a - 1:a] in ("<", ">", ":", "%", "?", "#", "|", "^", "=") or text[b:b + 1] in ("<", ">", ":", "%", "?", "=", "#"):
+                continue
+            sites.append((i, a, b, text[a]))
+    for (i, a, b, ch) in sites:
+        for sp in ALT[ch]:
+            v = text[:a] + sp + text[b:]
+            n += 1
+            got, exc = toks(v, fname)
+            if got != base:
+                out.append(("tokens", f"sample:k1:{x_type(t[i])}:{'digraph' if len(sp) == 2 else 'trigraph'}",
+                            f"respelling {ch!r} at offset {a} as {sp!r} changes the tokens ({exc})", v))
+    for which in (0, -1):
+        parts = []
+        last = 0
+        for (i, a, b, ch) in sites:
+            parts.append(text[last:a] + ALT[ch][which])
+            last = b
+        parts.append(text[last:])
+        v = "".join(parts)
+        n += 1
+        got, exc = toks(v, fname)
+        if sites and got != base:
+            out.append(("tokens", f"sample:all:{'digraph' if which == 0 else 'trigraph'}", f"all respelled: tokens differ ({exc})", v))
+    for i in range(1, len(t), step):
+        if t[i - 1].type == "COMMENT":
+            continue
+        off = spans[i][0]
+        for sp in SPLICES:
+            v = text[:off] + sp + text[off:]
+            n += 1
+            got, exc = toks(v, fname)
+            if got != base:
+                out.append(("tokens", f"sample:splice:{'trigraph' if sp[0] == '?' else 'backslash'}:before-{t[i].type}:after-{t[i - 1].type}",
+                            f"splice before token {i} {t[i].type} changes the tokens ({exc})", v))
+    return n, out, len(sites)
+
+
+def x_type(tok):
+    return tok.type
+
+
 # ---------------------------------------------------------------- (b) punctuator sequences
 
 PUNCT = ["{", "}", "[", "]", "#", "|", "||", "|=", "^", "^=", "~", "<", "<<", "<<=", "<=", ">", ">>", ">>=", "%", "%=",
@@ -232,6 +292,15 @@ def run(tier, seed):
                 raise HarnessError(detail)
             failures.append(Failure("C12", f"{kind}:{label}", f"{t[0]}: {detail[:300]}", {"kind": "file", "fname": t[0], "text": text,
                                                                                           "base": norm.render(t[2] + t[3])}))
+    from .. import corpus
+    smp = [(fn, tx, 1 if tier == "thorough" else 3) for fn, tx in corpus.samples()]
+    sres = explore.pmap(sample_task, smp, chunksize=2)
+    for (fn, tx, _), (n, out, ns) in zip(smp, sres):
+        st.runs += n
+        nsites += ns
+        for kind, label, detail, text in out:
+            failures.append(Failure("C12", f"{kind}:{label}", f"{fn}: {detail[:300]}", {"kind": "seq", "fname": fn, "text": text, "base": tx}))
+    st.bump("sample_files", len(smp))
     st.bump("carrier_files", len(tasks))
     st.bump("respellable_sites", nsites)
     L = 3 if tier == "quick" else 4
